@@ -1213,6 +1213,98 @@ def misc_hazard_rules(ctx: Ctx, functions) -> int:
     return n
 
 
+SEQUENCE_STATE = {"RelativeSequence": {"_messages"}, "AbsoluteSequence": {"_messages"}, "AbstractSequence": {"_messages"},
+                  "Sequence": {"_abs", "_rel", "_abs_stale", "_rel_stale"}}
+
+
+def derived_state_rule(ctx: Ctx, rule: str = "DERIVED") -> int:
+    """Object state beyond the events themselves.  (1) A sequence object holds its event list (or its two views and their freshness
+    flags) and nothing derived from them: an attribute assigned outside the constructor that is none of these is a *cache* of something
+    computed from the events, and it is only right while every method that changes the events resets it -- so every such method must
+    store to it (directly or through a method of the object it calls).  (2) The tokeniser's queries (`tokenise`, `detokenise`, `get_info`,
+    `encode`, `decode`) store nothing on the tokeniser: what they answer depends on their arguments only."""
+    from ..engines.effects import Effects
+    p = ctx.p
+    eff = Effects(p)
+    n = 0
+    bad = []
+
+    def self_stores(fn):
+        return {(x.attr, x) for x in ast.walk(fn) if isinstance(x, ast.Attribute) and isinstance(x.ctx, (ast.Store, ast.Del)) and isinstance(x.value, ast.Name)
+                and x.value.id == "self"}
+    for cname, state in SEQUENCE_STATE.items():
+        ci = p.classes.get(cname)
+        if ci is None:
+            continue
+        methods = {m.name: m for m in ci.node.body if isinstance(m, ast.FunctionDef)}
+        derived = {}
+        for mname, m in methods.items():
+            if mname in ("__init__", "__post_init__"):
+                continue
+            for a, node in self_stores(m):
+                if a not in state and not any(a in SEQUENCE_STATE.get(b, ()) for b in SEQUENCE_STATE):
+                    derived.setdefault(a, []).append((mname, node))
+        # attributes that exist from the constructor on but hold something computed later count too when a non-constructor method fills them
+        n += len(methods)
+        if not derived:
+            continue
+
+        def changes_events(mname):
+            m = methods[mname]
+            if cname == "Sequence" and mname in ("abs", "rel", "refresh"):
+                return False                     # a view rebuilt from the other one: the same events
+            if cname == "Sequence":
+                for c in ast.walk(m):
+                    if isinstance(c, ast.Call):
+                        recv, nm = call_method(c)
+                        if isinstance(recv, ast.Name) and recv.id == "self" and nm in ("invalidate_abs", "invalidate_rel"):
+                            return True
+                        ch = attr_chain(recv) if recv is not None else None
+                        if ch in (["self", "abs"], ["self", "rel"], ["self", "_abs"], ["self", "_rel"]) and nm is not None \
+                                and eff.classify("AbsoluteSequence" if "abs" in ch[1] else "RelativeSequence", nm) == "MUTATE":
+                            return True
+                return any(a in ("_abs", "_rel") for a, _ in self_stores(m))
+            return eff.classify(cname, mname) == "MUTATE"
+
+        def resets(mname, attr, seen=()):
+            m = methods.get(mname)
+            if m is None or mname in seen:
+                return False
+            if any(a == attr for a, _ in self_stores(m)):
+                return True
+            for c in ast.walk(m):
+                if isinstance(c, ast.Call):
+                    recv, nm = call_method(c)
+                    if isinstance(recv, ast.Name) and recv.id == "self" and nm in methods and resets(nm, attr, seen + (mname,)):
+                        return True
+            return False
+        for attr, sites in derived.items():
+            for mname in sorted(methods):
+                if mname in ("__init__", "__post_init__") or not changes_events(mname):
+                    continue
+                n += 1
+                if not resets(mname, attr):
+                    fi = p.functions.get(f"{cname}.{mname}")
+                    bad.append((fi, methods[mname], f"`{cname}.{attr}` (assigned in {sorted({s_[0] for s_ in sites})}) is not reset by `{mname}`, which changes the events",
+                                "the stored value is computed from the events: after this method it describes the sequence as it was"))
+    tok = p.classes.get("MultiTrackLargeVocabularyNotelikeTokeniser")
+    if tok is not None:
+        for m in tok.node.body:
+            if isinstance(m, ast.FunctionDef) and m.name in ("tokenise", "detokenise", "get_info", "encode", "decode"):
+                n += 1
+                for a, node in self_stores(m):
+                    fi = p.functions.get(f"{tok.name}.{m.name}")
+                    bad.append((fi, node, f"`{m.name}` stores `self.{a}` on the tokeniser",
+                                "the next call starts from what this one left behind: its answer depends on the calls made before, not on its arguments alone"))
+    ctx.check(not bad, rule, f"no derived state on sequence objects outlives a change of the events; the tokeniser's queries store nothing ({n} methods inspected)",
+              function=(bad[0][0].qualname if bad and bad[0][0] is not None else "*"), construct=bad[0][2] if bad else "ok",
+              message=bad[0][3] if bad else "", file=(bad[0][0].file if bad and bad[0][0] is not None else next(iter(p.sources))), node=bad[0][1] if bad else None)
+    for extra in bad[1:6]:
+        ctx.violation(rule, extra[2], function=(extra[0].qualname if extra[0] is not None else "*"), construct=extra[2], message=extra[3],
+                      file=(extra[0].file if extra[0] is not None else next(iter(p.sources))), node=extra[1])
+    return n
+
+
 MEMO_DECORATORS = {"lru_cache", "cache", "cached_property"}
 _EXEMPT_MODULES = ("scoda/settings/", "scoda/misc/scoda_logging", "scoda/misc/logging")
 
